@@ -231,8 +231,8 @@ sanitize_registry = {
     },
     OMNI: {},
     FP: {
-        # Remove various IBM directives
-        'IBM_DIRECTIVES': PPRule(match=re.compile(r'(@PROCESS.*\n)'), replace='\n'),
+        # Remove various IBM directives (a line of its own, not the same text inside a literal or comment)
+        'IBM_DIRECTIVES': PPRule(match=re.compile(r'(^\s*@PROCESS.*\n)'), replace='\n'),
 
         # Enquote string CPP directives in Fortran source lines to make them string constants
         # Note: this is a bit tricky as we need to make sure that we don't replace it inside CPP
